@@ -1,7 +1,7 @@
 """C15 — null and cast algebra is coherent across all element types."""
 CFG = dict(
     bins=["c15"],
-    imports=["Model.Cast", "Run.RunC15"],
+    imports=["Model.Cast", "Run.RunC15", "Model.Time"],
     exhaustive=True,
     rule="exhaustive over a finite universe: 28 Rust types (f32 f64 i32 i64 u8 u64 usize isize bool String &str "
          "DateTime<Nanosecond> DateTime<Millisecond> TimeDelta Time and their Option forms) = 26 model type codes; "
